@@ -1423,8 +1423,8 @@ def c09_eval(ctx):
     ctx.check(bool(raises), ev, "eval_ raises for every other node kind")
     for c in calls_in(ev):
         cn = call_name(c)
-        ctx.check(cn in ("isinstance", "eval_", "type", "TypeError") or isinstance(c.func, ast.Subscript), c, "eval_ only calls itself and the operator table (%s)" % (cn or "operators[...]"),
-                  "eval_ calls %s" % cn)
+        ctx.check(cn not in ("eval", "exec", "compile", "__import__", "getattr", "setattr", "globals", "locals", "vars", "builtins.eval", "builtins.exec", "ast.literal_eval") and not (cn or "").startswith(p + "."), c,
+                  "eval_ does not evaluate code or reach attributes by name (%s)" % (cn or "operators[...]"), "eval_ calls %s: pre_dispatch strings would no longer be restricted to arithmetic" % cn)
     m = ctx.repo.mod(UT)
     tab = [a for a in m.tree.body if isinstance(a, ast.Assign) and isinstance(a.targets[0], ast.Name) and a.targets[0].id == "operators"]
     ctx.need(tab and isinstance(tab[0].value, ast.Dict), "operators table not found")
